@@ -201,6 +201,41 @@ def _run(env):
             ctx.case('mut-key', (name, pos))
             if not falsy(o): ctx.fail('mut-key', 'signature verifies under altered key material', {'op': 'mutkey', 'key': name, 'pos': pos})
 
+    # --- a signature by SOMEBODY ELSE whose issuer key id is rewritten to a component of the verifying key that cannot verify anything
+    #     (an ECDH encryption subkey): nothing was checked, so the answer must be falsy or an error - never a truthy result with no
+    #     signature examined (SignatureVerification over zero entries is truthy) ---
+    for vname, aname in ((('ed25519', 'ed25519b'), ('p256', 'ed25519b'), ('rsa2048', 'p256')) if ctx.quick else
+                         (('ed25519', 'ed25519b'), ('p256', 'ed25519b'), ('rsa2048', 'p256'), ('p384', 'ed25519'), ('secp256k1', 'rsa2048'), ('ed25519b', 'p521'))):
+        try:
+            victim, attacker = env.key(vname), env.key(aname)
+        except Exception as ex:
+            ctx.skipped.append('%s / %s: %r' % (vname, aname, ex)); continue
+        vpub2 = pgpy.PGPKey.from_blob(bytes(victim.pubkey))[0]
+        targets = [(kid, sk) for kid, sk in vpub2.subkeys.items() if not sk.key_algorithm.can_sign]
+        doc = b'pay 9999 to mallory'
+        fsig = attacker.sign(doc, hash=pgpy.constants.HashAlgorithm.SHA256, created=t(9600))
+        fraw = bytes(fsig)
+        akid = bytes.fromhex(attacker.fingerprint.keyid)
+        for kid, sk in targets:
+            tk = bytes.fromhex(kid)
+            variants = [('issuer id rewritten', fraw.replace(b'\x09\x10' + akid, b'\x09\x10' + tk)), ('every occurrence of the key id rewritten', fraw.replace(akid, tk))]
+            for what, forged in variants:
+                if forged == fraw:
+                    continue
+                case = {'op': 'forged-issuer', 'victim': vname, 'attacker': aname, 'component': kid, 'what': what, 'sig': forged.hex()}
+                tests = [('detached, same document', lambda: bool(vpub2.verify(doc, pgpy.PGPSignature.from_blob(forged)))),
+                         ('detached, another document', lambda: bool(vpub2.verify(b'something else', pgpy.PGPSignature.from_blob(forged))))]
+                def in_message():
+                    m = pgpy.PGPMessage.new(doc, compression=pgpy.constants.CompressionAlgorithm.Uncompressed)
+                    m |= pgpy.PGPSignature.from_blob(forged)
+                    return bool(vpub2.verify(pgpy.PGPMessage.from_blob(bytes(m))))
+                tests.append(('inside a signed message', in_message))
+                for tn, fn in tests:
+                    o = outcome_timed(2.0, fn)
+                    ctx.case('wrong-key', (vname, aname, kid, what, tn), sample={'victim': vname, 'issuer_names': 'ECDH subkey', 'how': tn})
+                    if not falsy(o):
+                        ctx.fail('wrong-key', "somebody else's signature verifies once its issuer id names a component of the key that cannot verify (%s)" % tn, dict(case, how=tn))
+
     # --- a verifying key (or signing subkey) that carries a revocation: whatever PGPy then says about GOOD signatures, a wrong
     #     document, a damaged signature or another key's signature must still not verify ---
     from .keys import get as _get
@@ -358,6 +393,11 @@ def replay(ctx, case):
             if case.get('op') == 'carrier' and 'msg' in case and 'impl' not in case:
                 pub = env.key('ed25519').pubkey
                 return not falsy(outcome(lambda: bool(pub.verify(env.pgpy.PGPMessage.from_blob(bytes.fromhex(case['msg']))))))
+            if case.get('op') == 'forged-issuer':
+                pgpy = env.pgpy
+                vpub = pgpy.PGPKey.from_blob(bytes(env.key(case['victim']).pubkey))[0]
+                forged = bytes.fromhex(case['sig'])
+                return not falsy(outcome(lambda: bool(vpub.verify(b'pay 9999 to mallory', pgpy.PGPSignature.from_blob(forged)))))
             return True
     finally:
         env.d.close()
